@@ -1,6 +1,14 @@
 package exec
 
-import "container/heap"
+import (
+	"container/heap"
+	"sync"
+)
+
+// sliceMachine is several KB (it embeds bigmachine.MemInfo with a
+// runtime.MemStats), so the values are recycled between calls; every field that
+// schedule or the queues look at (maxTaskProcs, taskProcs, index) is set afresh.
+var verifC14MachPool = sync.Pool{New: func() interface{} { return new(sliceMachine) }}
 
 // Accessors for property C14 part (a): call the real, unexported
 // schedule(&schedQ, &machQ) on queues built from plain integers. Nothing here
@@ -43,9 +51,15 @@ func VerifC14Schedule(machs [][2]int, reqs [][2]int) (res VerifC14SchedResult) {
 		rs     = make([]*scheduleRequest, len(reqs))
 	)
 	for i, m := range machs {
-		ms[i] = &sliceMachine{maxTaskProcs: m[0], taskProcs: m[1]}
+		ms[i] = verifC14MachPool.Get().(*sliceMachine)
+		ms[i].maxTaskProcs, ms[i].taskProcs, ms[i].index = m[0], m[1], 0
 		heap.Push(&machQ, ms[i])
 	}
+	defer func() {
+		for _, m := range ms {
+			verifC14MachPool.Put(m)
+		}
+	}()
 	for i, r := range reqs {
 		rs[i] = &scheduleRequest{priority: r[0], procs: r[1]}
 		heap.Push(&schedQ, rs[i])
